@@ -5,6 +5,9 @@
   comes from the correspondence: real objects are driven through random call histories, every
   result is compared with the model's pure function of the receiver's *current* snapshot and
   with a freshly built identical object, and every live object is snapshotted after every call.
+  The calls of the model include the JSON round trip (`Call.jsonRoundtrip cfg`: `from_json(to_json(x))` under plog's or the
+  configurator's class map — reading a document back is a query on the document), so `run_history_free` / `same_as_fresh`
+  speak about it too; on the real code the class map is module-level state, which is why the history check asks for it.
 -/
 import Puan.Model.Hist
 namespace Puan.C09
